@@ -26,7 +26,8 @@ RULE = (
 ASSUMPTIONS = [
     "pbt/stdspec/responses.py places fields as SPC-4/5, SBC-3, SMC-3, MMC-6, SAT-3 prescribe; fields it does not model are not compared",
     "the library may report more keys than the model lists; only modelled keys are compared",
-    "READ CD: only (expected sector type, selection bits) combinations whose returned layout is unambiguous in MMC-6 are generated; header/sub-header contents are not compared",
+    "READ CD: only (expected sector type, selection bits) combinations whose returned layout is unambiguous in MMC-6 are generated; sector header, mode 2 sub-header and the formatted Q sub-channel are compared field by field",
+    "ATA Information VPD page: the SAT identification strings, the device signature registers (SAT-3 register FIS image) and IDENTIFY DEVICE words 0, 2, 10-19, 23-26, 27-46 are compared; other IDENTIFY words are not decoded by the library",
 ]
 
 FORMATS = {}
